@@ -430,7 +430,7 @@ def gen_fix_world(rng: Rng, feats: Optional[dict] = None) -> dict:
         # ({% include %} / {% import %}): the templater reads OTHER files of the project
         cfg_sections["sqlfluff:templater:jinja"] = {"load_macros_from_path": "_macros", "loader_search_path": "_partials"}
         files["proj/.sqlfluff"] = {"b64": b64(ini(cfg_sections)), "mode": 0o644}
-        files["proj/_macros/m.sql"] = {"b64": b64(b"{% macro vsim_col(name) %}{{ name }} AS {{ name }}_alias{% endmacro %}\n"), "mode": 0o644}
+        files["proj/_macros/vsim_macros.sql"] = {"b64": b64(b"{% macro vsim_col(name) %}{{ name }} AS {{ name }}_alias{% endmacro %}\n"), "mode": 0o644}
         files["proj/_partials/part.sql"] = {"b64": b64(b"a AS part_col"), "mode": 0o644}
         files["proj/_partials/lib.sql"] = {"b64": b64(b"{% macro lib_tbl() %}tbl{% endmacro %}\n"), "mode": 0o644}
     if f["nested_cfg"]:
